@@ -23,7 +23,7 @@
     channel operations, [select] and [sync.WaitGroup] behave as the LTS' labels say is assumed, not
     proved; the correspondence check replays observed histories of the real code through the LTS. *)
 From Coq Require Import List ZArith Arith.
-From ApiFu Require Import Idle.IdleModel Idle.IdleSpec Idle.IdleProofs Idle.IdleLive Idle.IdleHist Idle.IdleFair Idle.IdleSub.
+From ApiFu Require Import Idle.IdleModel Idle.IdleSpec Idle.IdleProofs Idle.IdleLive Idle.IdleHist Idle.IdleFair Idle.IdleSub Idle.IdleJoint.
 From ApiFu Require Fut.Plan Fut.ExecAsync Fut.ExecSync Fut.AsyncRun Fut.FutSpec Fut.FutProofs.
 Import ListNotations.
 
@@ -142,6 +142,23 @@ Section C15.
       visible p w = true /\ In w (created_of pre) /\ ~ In w (deliveries pre).
   Proof. exact (round_deliveries_outstanding p WF BF fx). Qed.
 
+  (** The same at the level of states, as a step of the joint executor + handler model: [K st s]
+      couples C02's executor state [st] with the LTS state [s] (item w = promise id w; created =
+      in the promise table; done = delivered; channel contents agree).  One idle round of the LTS
+      from a coupled state IS the transition [ExecAsync.idle] of C02's model with chosen = the
+      round's deliveries (it does not answer [None]: C02's "Stuck" cannot arise from this handler),
+      and the states are coupled again afterwards.  What is still missing for "response == response
+      with all resolvers synchronous" as a theorem is the executor's half: C02's [poll] between two
+      idle calls, seen through [K], as [LCreate] / [LConsume] / [LAbandon] steps ending where
+      [LIdleEnter] is enabled. *)
+  Theorem C15_idle_round_is_C02_idle_transition : forall st s m mid s',
+    no_chaining p ->
+    K st s -> Inv p s -> Sim p s m -> st_phase s = PPoll ->
+    run fx p s (LIdleEnter :: mid ++ [LIdleExit]) = Some s' -> ~ In LIdleExit mid ->
+    exists st', ExecAsync.idle (fun _ _ => deliveries mid) st = Some st' /\ K st' s' /\
+                ExecAsync.s_round st' = S (ExecAsync.s_round st) /\ st_phase s' = PPoll.
+  Proof. exact (fun st s m mid s' NC => round_preserves_coupling p WF BF NC fx st s m mid s'). Qed.
+
   (** With chaining a round may fill only inner promises (see the refutation below); the executor
       then calls the handler again, and altogether never more often than the request has promises. *)
   Theorem C15_idle_rounds_bounded : forall tr s,
@@ -217,6 +234,21 @@ Theorem C15_subscription_batch_leak_refuted_before_fix :
     sub_run true current p init [tr1; tr2] = None.
 Proof. exact batch_leak_before_fix. Qed.
 
+(** Before the repair of the shared asyncResolutions channel: the resolution of a goroutine that an
+    earlier event started ([LRecv 7], no item of this execution; step relation [step_stale]) is
+    consumed by the running event's idle handler, which then returns to the executor having filled
+    no promise of this execution while promise 0 is still awaited; the Spec rejects the history and
+    the repaired code ([run]) cannot produce it. *)
+Theorem C15_subscription_stale_resolution_refuted_before_fix :
+  exists p pre mid s,
+    wf_items p = true /\ bfun_ok p /\
+    run_stale current p init (pre ++ LIdleEnter :: mid ++ [LIdleExit]) = Some s /\ ~ In LIdleExit mid /\
+    st_phase s = PPoll /\ live p s 0 = true /\ chan_empty s 0 = true /\
+    (forall w, In w (deliveries mid) -> ~ In w (created_of (pre ++ mid))) /\
+    mon_run p mon_init (pre ++ LIdleEnter :: mid ++ [LIdleExit]) = None /\
+    run current p init (pre ++ LIdleEnter :: mid ++ [LIdleExit]) = None.
+Proof. exact stale_resolution_before_fix. Qed.
+
 (** A hand-over in Go that also selects on the request context (the seeded change C15-2, as the
     step relation [step_ctxdrop]): after a cancellation the goroutine may end without handing its
     result over; the request [create 0; idle-enter; cancel; finish 0; arrive 0; exit 0] is then inside
@@ -252,9 +284,11 @@ Print Assumptions C15_no_leak_refuted_before_fix.
 Print Assumptions C15_completes_refuted_with_ctx_drop.
 Print Assumptions C15_subscription_events_isolated.
 Print Assumptions C15_subscription_batch_leak_refuted_before_fix.
+Print Assumptions C15_subscription_stale_resolution_refuted_before_fix.
 Print Assumptions C15_idle_round_fulfils.
 Print Assumptions C15_idle_round_fair_unchained.
 Print Assumptions C15_idle_round_deliveries_outstanding.
+Print Assumptions C15_idle_round_is_C02_idle_transition.
 Print Assumptions C15_idle_rounds_bounded.
 Print Assumptions C15_round_fairness_refuted_with_chaining.
 Print Assumptions C15_handler_record_is_fair_scheduler.
